@@ -2,6 +2,7 @@
 package sym
 
 import (
+	"os"
 	"fmt"
 	"math/bits"
 	"strings"
@@ -410,7 +411,7 @@ func (tb *Table) Bin(op Op, a, b *Term) *Term {
 			}
 			// narrowing: a bounded value times a constant that cannot overflow k << w bits is computed
 			// in k bits (decimal kernels: a 64-bit multiplier per digit otherwise)
-			if hi, lo := bits.Mul64(a.UB(), b.Val); hi == 0 {
+			if hi, lo := bits.Mul64(a.UB(), b.Val); hi == 0 && os.Getenv("NO_NARROW_MUL") == "" {
 				if k := bits.Len64(lo); k >= 1 && k+8 <= int(w) {
 					ks := Sort(k)
 					return tb.ZExt(tb.Bin(OpMul, tb.Extract(a, k-1, 0), tb.Const(ks, b.Val)), s)
@@ -433,7 +434,7 @@ func (tb *Table) Bin(op Op, a, b *Term) *Term {
 				return tb.Const(s, 0)
 			}
 			// narrowing: dividend below 2^k with k << w: divide in k bits
-			if k := bits.Len64(ua); k >= 1 && k+8 <= int(w) {
+			if k := bits.Len64(ua); k >= 1 && k+8 <= int(w) && os.Getenv("NO_NARROW_DIV") == "" {
 				ks := Sort(k)
 				return tb.ZExt(tb.Bin(op, tb.Extract(a, k-1, 0), tb.Const(ks, b.Val)), s)
 			}
